@@ -196,7 +196,7 @@ fn scenario(cfg: &RunCfg) -> Outcome {
         // disk faults on the file this upload will create (creation order is not known in
         // advance, so faults are attached to creation indices)
         if gen::ratio(1, 4) {
-            let kind = gen::pick(&[ErrorKind::StorageFull, ErrorKind::Other]);
+            let kind = if gen::ratio(1, 2) { ErrorKind::StorageFull } else { gen::file_error_kind() };
             let at = gen::below(l as u32 + 1) as u64;
             with(|w| {
                 w.fs.write_fail_at.insert(disk_fault_idx, (at, kind));
@@ -204,12 +204,14 @@ fn scenario(cfg: &RunCfg) -> Outcome {
             descr.push(format!("disk write error on created file #{disk_fault_idx} at {at}"));
             disk_fault_idx += 1;
         } else if gen::ratio(1, 10) {
+            let ck = gen::file_error_kind();
             with(|w| {
-                w.fs.close_fail.insert(disk_fault_idx, ErrorKind::Other);
+                w.fs.close_fail.insert(disk_fault_idx, ck);
             });
             disk_fault_idx += 1;
         } else if gen::ratio(1, 12) {
-            with(|w| w.fs.create_faults.push(ErrorKind::PermissionDenied));
+            let ck = gen::file_error_kind();
+            with(|w| w.fs.create_faults.push(ck));
         }
         descr.push(format!("upload {c}: {} L={l} M={m} ending={ending} cut={cut} ready={:?}", if declared { "declared" } else { "undeclared" }, r.plan.on_ready));
     }
